@@ -206,5 +206,5 @@ func run(c Case, o *lib.Obs) error {
 }
 
 func TestC31(t *testing.T) {
-	lib.Check(t, spec, lib.Scale(16, 800), gen, run)
+	lib.Check(t, spec, lib.Scale(16, 400), gen, run)
 }
